@@ -6,6 +6,7 @@
                                                 => Ok len= tc= id= cnt=q,a,n,r opt= b2=
    srv <id> <b2> <qd> <nq> <labels> <qtype> <-|one:size:ver|dup:size|bad> <cfg|-> <none|err:rc|ok:rb2:rb3:n_an:an_len:n_ar:ar_len:(-|size/dlen)>
                                                 => Ok None | Ok len= tc= id= cnt= opt= b2= b3= ottl=   (one datagram through the whole DgramServer)
+   pad <hexdatagram> <cfg|->                    => as srv: a raw datagram (no records, no compression) as the 1024-octet zero-padded receive buffer presents it
    tcp <id> <b2> <qd> <nq> <labels> <qtype> <-|one:size:ver|ka:size:0/1|dup:size|bad> <idle_ms|-> <svc as srv>
                                                 => Ok None | Ok len= ... ottl= odl=   (one request on a StreamServer connection, the response before framing)
    frame <hex>                                  => Ok <hex> | Err 1
@@ -47,6 +48,13 @@ let handle = function
       show_outcome (fun (((((l, tc), i), (((q, a), n), r)), ho), b2) ->
         Printf.sprintf "len=%s tc=%s id=%s cnt=%s,%s,%s,%s opt=%s b2=%s" (show_n l) (b01 tc) (show_n i)
           (show_n q) (show_n a) (show_n n) (show_n r) (b01 ho) (show_n b2)) r
+  | ["pad"; d; cfg] ->
+      show_outcome (function
+        | None -> "None"
+        | Some (((((((l, tc), i), (((q, a), n), r)), ho), b2), b3), ottl) ->
+            Printf.sprintf "len=%s tc=%s id=%s cnt=%s,%s,%s,%s opt=%s b2=%s b3=%s ottl=%s" (show_n l) (b01 tc) (show_n i)
+              (show_n q) (show_n a) (show_n n) (show_n r) (b01 ho) (show_n b2) (show_n b3) (show_n ottl))
+        (c16_pad (bytes_of_hex d) (opt_n cfg))
   | ["tcp"; id; b2; qd; nq; labels; qtype; opt; idle; svc] ->
       let r = c16_tcp (n_of id) (n_of b2) (n_of qd) (n_of nq) (List.map n_of (split_on '.' labels)) (n_of qtype) (opt_of opt) (opt_n idle) (svc_of svc) in
       show_outcome (function
